@@ -813,6 +813,15 @@ func keysString(m map[string]any) string {
 // PeekLocked may only be called from a monitor callback (the commit section holds the lock).
 func (s *Store) PeekLocked(key Key) Obj { return s.objs[key] }
 
+// AgeLocked: number of requests since the object was created (for monitors, inside the commit section).
+func (s *Store) AgeLocked(key Key) int64 {
+	b, ok := s.born[key]
+	if !ok {
+		return 1 << 60
+	}
+	return int64(s.reqSeq) - b
+}
+
 // KeysLocked lists the stored keys; monitor callbacks only.
 func (s *Store) KeysLocked() []Key {
 	out := make([]Key, 0, len(s.objs))
